@@ -199,11 +199,15 @@ const twip = 1.0 / 56.692913385827
 func near(a, b, tol float64) bool { return math.Abs(a-b) <= tol }
 
 // recognised returns the predefined size a dimension pair is reported as (1 mm tolerance, either rotation).
+// recognised lists the predefined sizes that lie within the documented 1 mm of w x h. Lengths are stored in
+// twentieths of a point, so a requested length that differs from a predefined one by exactly 1 mm may be stored as
+// one that differs by a hair less: at the boundary the tolerance is taken up to one storage unit (Appendix B11).
 func recognised(w, h float64) []string {
 	var out []string
+	const tol = 1 + 1.01*twip
 	for _, n := range c12sizeNames {
 		d := c12sizes[n]
-		if (math.Abs(w-d[0]) < 1 && math.Abs(h-d[1]) < 1) || (math.Abs(w-d[1]) < 1 && math.Abs(h-d[0]) < 1) {
+		if (math.Abs(w-d[0]) < tol && math.Abs(h-d[1]) < tol) || (math.Abs(w-d[1]) < tol && math.Abs(h-d[0]) < tol) {
 			out = append(out, n)
 		}
 	}
